@@ -1,0 +1,26 @@
+//go:build verif
+
+// Contracts of the datapoint registry (property C19) for the kvc verifier (see
+// /verif/DESIGN.md). Comment-only. dptTypes is treated as a constant table whose content is
+// read from the package initialiser on every run.
+
+package dpt
+
+//@ func Produce(name string) (d Datapoint, ok bool)
+//@   props C19
+//@   ensures [known] ok <==> inmap(dptTypes, name)
+//@   ensures [unknown] !ok ==> d == nil
+//@   ensures [typed] ok ==> d != nil && sametype(d, mapval(dptTypes, name))
+//@   ensures [fresh] ok ==> fresh(payload(d)) && payload(d) != payload(mapval(dptTypes, name))
+//@   ensures [zero] ok ==> zeroed(d)
+//@   assigns nothing
+
+//@ func ListSupportedTypes() (keys []string)
+//@   props C19
+//@   ensures [count] len(keys) == maplen(dptTypes)
+//@   ensures [listed] forall i in 0..len(keys) :: inmap(dptTypes, keys[i])
+//@   timeout 90
+//@   loop 0 unroll 176
+
+//@ func lemmaC19_independent(name string)
+//@   props C19
